@@ -29,7 +29,7 @@ struct Case {
     op: BOp,
     /// state that must be ignored: 0 none; 1 the destination has a transform, a clip rect and an
     /// open layer; 2 the destination has a singular transform; 3 the *source* has a clip and an
-    /// open layer with content in it
+    /// open layer with content in it; 4 the source, 5 the destination comes from an over-long vector
     ctx: u8,
 }
 
@@ -75,7 +75,7 @@ fn model(c: &Case, src: &[u32], dst: &[u32]) -> Option<Vec<u32>> {
             out[di] = match c.op {
                 BOp::Copy => s,
                 BOp::Blend(m) => pix::try_blend(m, s, out[di])?,
-                BOp::Alpha(a) => sw_composite::over_in(s, out[di], pix::alpha_byte(a)),
+                BOp::Alpha(a) => sw_composite::over_in(s, out[di], pix::alpha_byte(a).min(255)),
             };
         }
     }
@@ -96,8 +96,23 @@ fn eval(c: &Case) -> Res {
         None => return Res::Skip,
     };
     let r = guard(|| {
-        let mut src = DrawTarget::from_vec(c.sw, c.sh, sp.clone());
-        let mut dst = DrawTarget::from_vec(c.dw, c.dh, dp.clone());
+        // ctx 4 / 5: the source / the destination is built by from_vec from a longer, recycled
+        // vector (it is cut to width x height); the source's as long as the destination's buffer
+        let mut spv = sp.clone();
+        let mut dpv = dp.clone();
+        if c.ctx == 4 {
+            let n = ((c.dw * c.dh) as usize).max(spv.len() + 3);
+            while spv.len() < n {
+                spv.push(0xff102030 + spv.len() as u32);
+            }
+        }
+        if c.ctx == 5 {
+            for k in 0..(c.sw * c.sh + 2) as u32 {
+                dpv.push(0xff302010 + k);
+            }
+        }
+        let mut src = DrawTarget::from_vec(c.sw, c.sh, spv);
+        let mut dst = DrawTarget::from_vec(c.dw, c.dh, dpv);
         if c.ctx == 2 {
             dst.set_transform(&Transform::new(1., 2., 2., 4., 0., 0.));
         }
@@ -130,7 +145,10 @@ fn eval(c: &Case) -> Res {
             return Res::Bad(Violation::new(format!("{}/panic", op_kind(c.op)), case_str(c), format!("subject panicked: {}", p)));
         }
     };
-    if src_after != sp {
+    // only the width x height pixels of either surface are what the property speaks about
+    let mut got = got;
+    got.truncate(dp.len());
+    if src_after.get(..sp.len()) != Some(&sp[..]) {
         return Res::Bad(Violation::new(format!("{}/source-modified", op_kind(c.op)), case_str(c), "source surface changed".to_string()));
     }
     if !layer_clean {
@@ -179,7 +197,7 @@ impl Check for C15 {
         let q = run.tier.quick();
         run.rule("every (source size, destination size, src_rect, dst, operation) tuple of the stated ranges is executed once on fresh surfaces with all-distinct pixels and compared with a double-loop block-transfer model; non-trivial = at least one destination pixel is written");
         let sizes: Vec<i32> = if q { vec![0, 2, 3] } else { vec![0, 1, 2, 3] };
-        let mut ops: Vec<BOp> = vec![BOp::Copy, BOp::Alpha(0.5), BOp::Alpha(1.0), BOp::Alpha(0.0)];
+        let mut ops: Vec<BOp> = vec![BOp::Copy, BOp::Alpha(0.5), BOp::Alpha(1.0), BOp::Alpha(0.0), BOp::Alpha(1.004), BOp::Alpha(300.0)];
         let modes: Vec<BlendMode> = if q { vec![BlendMode::Src, BlendMode::SrcOver, BlendMode::Xor, BlendMode::Clear, BlendMode::Dst, BlendMode::DstIn] } else { MODES.to_vec() };
         for m in modes {
             ops.push(BOp::Blend(m));
@@ -196,7 +214,7 @@ impl Check for C15 {
         }
         let rc: Vec<i32> = (-1..=4).collect();
         let dc: Vec<i32> = if q { vec![-4, -2, -1, 0, 1, 2, 4] } else { (-4..=4).collect() };
-        run.bound("block-transfers", format!("{} size combinations x {}^4 src_rects x {}^2 dst points x {} operations, plus, for dst in {{-1,0,1}}^2, the same with transform+clip+layer set on the destination, with a singular transform on the destination, and with a clip and an open layer (with content) on the source", shapes.len(), rc.len(), dc.len(), ops.len()));
+        run.bound("block-transfers", format!("{} size combinations x {}^4 src_rects x {}^2 dst points x {} operations, plus, for dst in {{-1,0,1}}^2, the same with transform+clip+layer set on the destination, with a singular transform on the destination, with a clip and an open layer (with content) on the source, and with the source / the destination built by from_vec from an over-long vector", shapes.len(), rc.len(), dc.len(), ops.len()));
         run.par(shapes.len() * rc.len(), |si, l| {
             let (sw, sh, dw, dh) = shapes[si / rc.len()];
             let r0 = rc[si % rc.len()];
@@ -208,7 +226,7 @@ impl Check for C15 {
                         for &dx in &dc {
                             for &dy in &dc {
                                 for &op in &ops {
-                                    for ctx in [0u8, 1, 2, 3] {
+                                    for ctx in [0u8, 1, 2, 3, 4, 5] {
                                         if ctx != 0 && (dx.abs() > 1 || dy.abs() > 1) {
                                             continue;
                                         }
